@@ -76,8 +76,7 @@ def the_value(sx, a):
         # a symbolic string: "the text whose encoding under the description's codec is these
         # (symbolic) bytes", for every byte string that is valid under the codec
         from symx import strings
-        codec = odxref.codec_of(dtp, a.get("enc") if a.get("dct", "std") != "leading" else None,
-                                a.get("hl") in (None, True))
+        codec = odxref.codec_of(dtp, a.get("enc"), a.get("hl") in (None, True))
         raw = sx.bytes("v", a["slen"])
         if sx.sym:
             if not a["slen"]:
@@ -134,7 +133,7 @@ def ref_pdu(a, v):
         if dtp == "A_BYTEFIELD":
             raw = v
         elif dtp in odxref.STRINGS:
-            codec = odxref.codec_of(dtp, enc if dct == "minmax" else None, hl)
+            codec = odxref.codec_of(dtp, enc, hl)
             try:
                 raw = v.encode(codec)
             except UnicodeEncodeError:
@@ -608,6 +607,22 @@ def atoms(tier, seed):
                                         tail=True, bitpos=0, bytepos=None, hl=hl, slen=slen))
                         out.append(dict(dt=dtp, enc=None, dct="leading", bl=8, bitpos=0,
                                         bytepos=None, hl=hl, slen=slen))
+    # explicit BASE-TYPE-ENCODING on the variable-length types
+    for dtp, enc in (("A_ASCIISTRING", "ISO-8859-2"), ("A_ASCIISTRING", "WINDOWS-1252"),
+                     ("A_ASCIISTRING", "UTF-8"), ("A_UNICODE2STRING", "ISO-8859-2"),
+                     ("A_UTF8STRING", "ISO-8859-1")):
+        for slen in (0, 1, 2, 3):
+            out.append(dict(dt=dtp, enc=enc, dct="leading", bl=8, bitpos=0, bytepos=None, hl=True,
+                            slen=slen))
+            if dtp != "A_UNICODE2STRING":
+                out.append(dict(dt=dtp, enc=enc, dct="minmax", min=0, max=4, term="ZERO", tail=True,
+                                bitpos=0, bytepos=None, hl=True, slen=slen))
+        for sidx in (1, 4, 5, 9, 12):
+            out.append(dict(dt=dtp, enc=enc, dct="leading", bl=8, bitpos=0, bytepos=None, hl=True,
+                            sidx=sidx))
+            if dtp != "A_UNICODE2STRING":
+                out.append(dict(dt=dtp, enc=enc, dct="minmax", min=0, max=4, term="ZERO", tail=True,
+                                bitpos=0, bytepos=None, hl=True, sidx=sidx))
     # DOPs with compu methods (see run_cmatom)
     for name, (it, pt, cmspec, _) in CM_ATOMS.items():
         for bl, bitpos, hl in (((16, 3, False),) if tier == "quick" else
